@@ -89,6 +89,8 @@ class Harness:
         self.saved = dict(rt.__dict__)
         self.saved_funcs = dict(rt._CLEANUP_FUNCS)
 
+    warn_raises = False
+
     def run(self, lines):
         """Run the real main() on the scripted lines; returns per-line observations + sweep."""
         rt = self.rt
@@ -135,7 +137,11 @@ class Harness:
                                      stderr=sys.stderr)
         fsig = types.SimpleNamespace(signal=lambda *a: None, pthread_sigmask=lambda *a: None,
                                      SIGINT=2, SIGTERM=15, SIG_IGN=1, SIG_UNBLOCK=1, SIG_BLOCK=0)
-        fwarn = types.SimpleNamespace(warn=lambda m, *a, **k: obs["warnings"].append(str(m)))
+        def _warn(m, *a, **k):
+            obs["warnings"].append(str(m))
+            if self.warn_raises and "leaked" in str(m):
+                raise UserWarning(str(m))        # what -W error makes of it
+        fwarn = types.SimpleNamespace(warn=_warn)
         rt.__dict__["open"] = lambda fd, mode="rb": F()
         rt.sys, rt.signal, rt.warnings = fsys, fsig, fwarn
         funcs = rt._CLEANUP_FUNCS
@@ -275,6 +281,14 @@ def main(tier):
                 maxd = max(maxd, len(nh))
         if len(rep.violations) > 200:
             break
+    # with warnings turned into errors (python -W error is forwarded to the tracker) the
+    # end-of-life sweep must still destroy everything that is counted
+    h.warn_raises = True
+    for e1 in ev[:18]:
+        for e2 in ev[:18:5]:
+            check_history(h, [e1, e2], lambda sig, msg, labels: viol("Werror:" + sig, msg, labels))
+            evaluations += 1
+    h.warn_raises = False
     ncli = client_side(viol)
     rep.coverage = dict(
         states=len(seen), transitions=transitions, traces_validated_against_impl=transitions,
